@@ -430,7 +430,35 @@ func ruleCacheStruct(prefix string) func(r *Run) {
 						paired = true
 					}
 				}
-				r.Check(pair, fmt.Sprintf("%s:delete#%d", FuncName(f), n), w.InstrPos(x), paired, "every index deletion is paired with a list removal")
+				if !paired {
+					// or the element is re-used for another key: delete(index, node.Key); node.Key = k2; index[k2] = that element
+					if kl, isLd := d.Call.Args[1].(*ssa.UnOp); isLd && isLoadOfField(kl, cm.keyF) {
+						node := kl.X.(*ssa.FieldAddr).X
+						var elem ssa.Value
+						if ta, isTA := node.(*ssa.TypeAssert); isTA {
+							if ld, ok := ta.X.(*ssa.UnOp); ok {
+								if fa, ok := ld.X.(*ssa.FieldAddr); ok {
+									elem = fa.X
+								}
+							}
+						}
+						if elem != nil {
+							eachInstr(f, func(y ssa.Instruction) {
+								mu, isMU := y.(*ssa.MapUpdate)
+								if !isMU || !unwrapAddr(mu.Map).hasField(cm.mapF) || mu.Value != elem || !dominates(x, y) {
+									return
+								}
+								// the node's key is set to the new index key between the two
+								for _, st := range storesToField(f, cm.keyF) {
+									if fa := fieldAddrOf(st); fa.X == node && st.Val == mu.Key && dominates(x, st) {
+										paired = true
+									}
+								}
+							})
+						}
+					}
+				}
+				r.Check(pair, fmt.Sprintf("%s:delete#%d", FuncName(f), n), w.InstrPos(x), paired, "every index deletion is paired with a list removal (or the element is re-keyed: its node gets the new key and the index maps that key to it)")
 			})
 		}
 		// --- Get returns the Value of the node found under hashMap[k]
